@@ -9,7 +9,7 @@ and the complete pull/call logs at the end.
 
 import itertools
 
-from ..actors import World, AwaitableItem, ident, make_async_source, make_ref_source, make_async_fn, make_ref_fn, is_source_item
+from ..actors import World, AwaitableItem, Anything, ident, make_async_source, make_ref_source, make_async_fn, make_ref_fn, is_source_item
 from ..runner import Outcome
 from ..tools import draw_cfg, Gen, lib
 from ..tooldiff import normalise, first_diff
@@ -64,6 +64,11 @@ def gen(ch, cfg, prefix):
         for n in range(ch.between(1, 3)):
             pos = 0 if n == 0 and ch.chance(1, 2) else ch.draw(len(items))
             items[pos] = AwaitableItem(("aw", pos))
+    if items and (sc.key is None or sc.key.kind in ("const", "feed", "uidkey")) and ch.chance(1, 6):
+        # an item that claims to be equal to everything (a wildcard object): data like any other - the library's own
+        # markers are recognised by identity
+        pos = ch.draw(len(items))
+        items[pos] = Anything(("any", pos))
     sc.src = g.src(items)
     if ch.chance(1, 8):
         # a plain container (can be iterated again from the start): only what the consumer sees is compared then
@@ -72,7 +77,8 @@ def gen(ch, cfg, prefix):
     for _ in range(ch.between(1, 15)):
         # advance the groupby | advance group -i | close group -i | drain group -i through a library consumer (list)
         # ... | drop the last reference to the groupby object itself (the groups handed out stay in use)
-        ops.append((ch.weighted([12, 18, 2, 2, 1]), ch.draw(3)))
+        # ... | take one item of group -i with an ``async for`` loop that is left at once (``break``)
+        ops.append((ch.weighted([12, 18, 2, 2, 1, 3]), ch.draw(3)))
     sc.ops = ops
     return sc
 
@@ -109,6 +115,19 @@ async def history_async(sc, world, results):
         elif op == 3:
             rest = await L.list(groups[-1 - (i % len(groups))])
             results.append(("drained", i % len(groups), tuple(ident(x) for x in rest)))
+        elif op == 5:
+            # a loop over the group that is left after its first item: the group itself stays good for the rest
+            grp = groups[-1 - (i % len(groups))]
+            got = []
+            async for item in grp:
+                got.append(item)
+                break
+            del grp
+            if got:
+                results.append(("item", i % len(groups), ident(got[0]), got[0]))
+            else:
+                results.append(("stop", i % len(groups)))
+            del got
         else:
             grp = groups[-1 - (i % len(groups))]
             try:
@@ -149,6 +168,17 @@ def history_ref(sc, world, results):
             # itertools groups have no close; a closed group is one nobody asks for more: model it as such
             closed.add(id(groups[-1 - (i % len(groups))]))
             results.append(("closed", i % len(groups)))
+        elif op == 5:
+            grp = groups[-1 - (i % len(groups))]
+            got = []
+            if id(grp) not in closed:
+                for item in grp:
+                    got.append(item)
+                    break
+            if got:
+                results.append(("item", i % len(groups), ident(got[0]), got[0]))
+            else:
+                results.append(("stop", i % len(groups)))
         elif op == 3:
             grp = groups[-1 - (i % len(groups))]
             rest = [] if id(grp) in closed else list(grp)
@@ -192,7 +222,7 @@ def execute(st, ctx):
 
         def describe(i=None):
             return {"source": sc.src.describe(), "key": sc.key.describe() if sc.key else None,
-                    "ops": [(("advance", "group", "close_group", "drain_group", "drop_groupby")[o], i_) for o, i_ in sc.ops],
+                    "ops": [(("advance", "group", "close_group", "drain_group", "drop_groupby", "loop_over_group_left_at_once")[o], i_) for o, i_ in sc.ops],
                     "async": [repr(r[:3]) for r in results], "itertools": [repr(r[:3]) for r in rresults]}
 
         if len(results) != len(sc.ops):
@@ -246,7 +276,7 @@ def execute(st, ctx):
     if ctx.want_sample:
         sc, world, results = tenants[0]
         out.sample = {"source": sc.src.describe(), "key": sc.key.describe() if sc.key else None,
-                      "ops": [(("advance", "group", "close_group", "drain_group", "drop_groupby")[o], i_) for o, i_ in sc.ops],
+                      "ops": [(("advance", "group", "close_group", "drain_group", "drop_groupby", "loop_over_group_left_at_once")[o], i_) for o, i_ in sc.ops],
                       "results": [repr(r[:3]) for r in results]}
     if ctx.want_log:
         out.log = [[r[:3] for r in results] for _, _, results in tenants] + [w.log for _, w, _ in tenants] + [sim.trace]
